@@ -19,6 +19,10 @@ func main() {
 	switch *engine {
 	case "num":
 		runNum(*seed, *n, *dir)
+	case "math":
+		runMath(*seed, *n, *dir)
+	case "tick":
+		runTick(*seed, *n, *dir)
 	default:
 		fmt.Fprintln(os.Stderr, "unknown engine", *engine)
 		os.Exit(2)
